@@ -135,7 +135,7 @@ def render_xml(M, rng=None):
             if l['inv'] is not None:
                 out.append('<label kind="invariant">%s</label>' % XESC(ltext(M, 'inv', l['inv'])))
             if l['rate'] is not None:
-                out.append('<label kind="exponentialrate">%s</label>' % ltext(M, 'rate', l['rate']))
+                out.append('<label kind="exponentialrate">%s</label>' % XESC(ltext(M, 'rate', l['rate'])))
             if l['urgent']: out.append('<urgent/>')
             if l['committed']: out.append('<committed/>')
             out.append('</location>\n')
